@@ -441,3 +441,12 @@ pub fn apply(p: &Program, m: &Mutation) -> Program {
     }
     q
 }
+
+/// Seeds and alphabets of the second-order space MUT(MUT(s)) (thorough tiers of C14 / C15): the smallest corpus
+/// programs and every 9th instantiation-lattice wrapper, capped replacement alphabets.
+pub const PAIR_CFG: MutCfg = MutCfg { var_cap: 4, libfunc_cap: 6, target_cap: 6, type_cap: 4 };
+pub fn pair_seeds() -> Vec<(String, Program)> {
+    let mut progs = corpus(false);
+    progs.extend(crate::c14inst::compiled_wrappers(crate::core::Tier::Quick).into_iter().step_by(9));
+    progs.into_iter().filter(|(_, p)| !p.statements.is_empty() && p.statements.len() <= 9).take(200).collect()
+}
